@@ -489,11 +489,21 @@ pub fn body(spec: &Spec) {
         // Advance by a full timeout until the waiter has returned: a relative
         // timeout is armed from whenever the waiter got to read the clock,
         // which may be after an earlier tick.
+        let mut ticks = 0u32;
         loop {
             clock::advance(timeout_s * SEC);
             tail.push(Op::Tick(timeout_s * SEC));
             if done.load(std::sync::atomic::Ordering::Acquire) {
                 break;
+            }
+            ticks += 1;
+            if ticks > 8 {
+                // every tick is a whole timeout and the waiter runs after each: a wait that armed its deadline
+                // before the first tick is due after it, one that armed later after the second
+                violation(
+                    &key("timeout-overdue"),
+                    format!("waiter {waiter:?} has not returned although the clock was advanced by its whole timeout {ticks} times (and nothing else will wake it)"),
+                );
             }
             loom::thread::yield_now();
         }
@@ -693,6 +703,20 @@ pub fn catalogue(thorough: bool) -> Vec<Spec> {
             main_tick: true,
         });
     }
+    // many notifications that do NOT satisfy the wait, and a near deadline (1 s): the wait still times out at
+    // its deadline, not after some number of wake-ups
+    out.push(Spec {
+        name: "credit-timeout-1s/6-nonsatisfying".into(),
+        waiter: Waiter::Credit { c: 2, timeout_s: 1 },
+        threads: vec![vec![Op::Ack(0, 1), Op::Send(8), Op::Ack(0, 2), Op::Ack(0, 3), Op::Ack(0, 4), Op::Ack(0, 5)]],
+        main_tick: true,
+    });
+    out.push(Spec {
+        name: "reconnect-timeout-1s/6-nonsatisfying".into(),
+        waiter: Waiter::Reconnect { timeout_s: 1 },
+        threads: vec![vec![Op::Ack(0, 1), Op::Ack(0, 2), Op::Ack(0, 3), Op::Ack(0, 4), Op::Send(6), Op::Ack(0, 5)]],
+        main_tick: true,
+    });
     // the idle watchdog (the real `spawn_watchdog` thread) as the canceller
     for (kind, w) in [("credit", cw), ("reconnect", rw), ("oversized", ow)] {
         out.push(Spec { name: format!("watchdog/{kind}"), waiter: w, threads: vec![], main_tick: false });
